@@ -987,9 +987,17 @@ func c14_7(c *core.Ctx, p *core.Prog) {
 	})
 	// last value updated to the observed in-use
 	upd := false
+	consumerField := map[*types.Var]bool{} // direct fields and those promoted from embedded package structs
+	if obs.Signature.Recv() != nil {
+		if fs := core.FlatStruct(obs.Signature.Recv().Type()); fs != nil {
+			for k := 0; k < fs.NumFields(); k++ {
+				consumerField[fs.Field(k)] = true
+			}
+		}
+	}
 	core.EachInstr(obs, func(i ssa.Instruction) {
 		if s, ok := i.(*ssa.Store); ok {
-			if fa, ok := s.Addr.(*ssa.FieldAddr); ok && core.TypeName(fa.X.Type()) == "Consumer" {
+			if fa, ok := s.Addr.(*ssa.FieldAddr); ok && (core.TypeName(fa.X.Type()) == "Consumer" || consumerField[core.FieldVar(fa)]) {
 				if cl, ok := s.Val.(*ssa.Call); ok && core.CalleeObj(cl) != nil && core.CalleeObj(cl).Name() == "Inuse" {
 					upd = true
 				}
